@@ -36,6 +36,7 @@ Variable has_decoder : bool.     (* a Content-Encoding the library decodes *)
 Variable decode : bool.          (* decode_content, the same for every call *)
 Variable read_all_drains_buffer : bool.   (* read() returns the buffered bytes first (source fact) *)
 Variable stream_checks_progress : bool.   (* stream() uses read_chunked only when nothing was read yet (source fact) *)
+Variable read_flushes_at_end : bool.      (* read(amt): the loop recomputes the flush flag, the early return at the end flushes (source fact) *)
 
 Definition rest (s : st) : nat := length (s_raw s) - s_pos s.
 
@@ -68,8 +69,9 @@ Fixpoint read_loop (fuel : nat) (amt : nat) (pos dpos : nat) (buf : list N) (hd 
       else
         let s1 := set_pos_dpos_buf s pos dpos buf hd (s_tape s) in
         let '(data, pos1) := fp_read s1 (Some amt) in
-        (* the flush flag is the one computed before the loop *)
-        let '(out, dpos1, hd1) := decode_step s1 data pos1 flush0 in
+        (* the flush flag: recomputed from this read, or the one computed before the loop *)
+        let fl := if read_flushes_at_end then (match data with [] => true | _ => false end) else flush0 in
+        let '(out, dpos1, hd1) := decode_step s1 data pos1 fl in
         read_loop f amt pos1 dpos1 (buf ++ out) hd1 s (match data with [] => true | _ => false end) flush0
   end.
 
@@ -79,7 +81,11 @@ Definition read (s : st) (amt : option nat) : list N * st :=
   | None =>
       let '(data, pos1) := fp_read s None in
       match data, s_buf s with
-      | [], [] => ([], s)
+      | [], [] =>
+          if read_flushes_at_end && decode then
+            let '(out, dpos1, hd1) := decode_step s [] (s_pos s) true in
+            (out, set_pos_dpos_buf s (s_pos s) dpos1 [] hd1 (s_tape s))
+          else ([], s)
       | _, _ =>
           let '(out, dpos1, hd1) := decode_step s data pos1 true in
           if read_all_drains_buffer then (s_buf s ++ out, set_pos_dpos_buf s pos1 dpos1 [] hd1 (s_tape s))
@@ -92,7 +98,11 @@ Definition read (s : st) (amt : option nat) : list N * st :=
         let '(data, pos1) := fp_read s (Some n) in
         let flush := match data with [] => negb (Nat.eqb n 0) | _ => false end in
         match data, s_buf s with
-        | [], [] => ([], s)
+        | [], [] =>
+            if read_flushes_at_end && decode && flush then
+              let '(out, dpos1, hd1) := decode_step s [] (s_pos s) true in
+              (firstn n out, set_pos_dpos_buf s (s_pos s) dpos1 (skipn n out) hd1 (s_tape s))
+            else ([], s)
         | _, _ =>
             if negb decode then (data, set_pos_dpos_buf s pos1 (s_dpos s) (s_buf s) (s_has_decoded s) (s_tape s))
             else
@@ -211,31 +221,31 @@ Fixpoint lines_of (pending : list N) (pieces : list (list N)) : list (list N) :=
 Inductive call := CRead (amt : option nat) | CRead1 (amt : option nat) | CReadinto (k : nat).
 Inductive finish := FNone | FRead | FStream (amt : option nat) | FReadChunked (amt : option nat) | FIter | FData.
 
-Fixpoint run_calls (D : dec) (hdc dc rb sg : bool) (s : st) (cs : list call) : list (list N) * st :=
+Fixpoint run_calls (D : dec) (hdc dc rb sg fe : bool) (s : st) (cs : list call) : list (list N) * st :=
   match cs with
   | [] => ([], s)
   | c :: more =>
       let '(p, s1) := match c with
-                      | CRead a => read D hdc dc rb s a
+                      | CRead a => read D hdc dc rb fe s a
                       | CRead1 a => read1 D hdc dc s a
-                      | CReadinto k => read D hdc dc rb s (Some k)
+                      | CReadinto k => read D hdc dc rb fe s (Some k)
                       end in
-      let '(ps, s2) := run_calls D hdc dc rb sg s1 more in
+      let '(ps, s2) := run_calls D hdc dc rb sg fe s1 more in
       (p :: ps, s2)
   end.
 
-Definition run_finish (D : dec) (hdc dc rb sg chunked : bool) (s : st) (f : finish) : list (list N) * st :=
+Definition run_finish (D : dec) (hdc dc rb sg fe chunked : bool) (s : st) (f : finish) : list (list N) * st :=
   match f with
   | FNone => ([], s)
-  | FRead | FData => let '(p, s1) := read D hdc dc rb s None in ([p], s1)
-  | FStream a => stream D hdc dc rb sg chunked s a
+  | FRead | FData => let '(p, s1) := read D hdc dc rb fe s None in ([p], s1)
+  | FStream a => stream D hdc dc rb sg fe chunked s a
   | FReadChunked a => read_chunked D hdc dc s a
-  | FIter => let '(ps, s1) := stream D hdc true rb sg chunked s (Some n65536) in (lines_of [] ps, s1)
+  | FIter => let '(ps, s1) := stream D hdc true rb sg fe chunked s (Some n65536) in (lines_of [] ps, s1)
   end.
 
-Definition run (D : dec) (hdc dc rb sg chunked : bool) (raw : list N) (chunks tape : list nat) (cs : list call) (f : finish)
+Definition run (D : dec) (hdc dc rb sg fe chunked : bool) (raw : list N) (chunks tape : list nat) (cs : list call) (f : finish)
   : list (list N) * list (list N) :=
   let s0 := mkSt raw 0 0 [] false tape None chunks in
-  let '(ps, s1) := run_calls D hdc dc rb sg s0 cs in
-  let '(fs, _) := run_finish D hdc dc rb sg chunked s1 f in
+  let '(ps, s1) := run_calls D hdc dc rb sg fe s0 cs in
+  let '(fs, _) := run_finish D hdc dc rb sg fe chunked s1 f in
   (ps, fs).
